@@ -135,6 +135,9 @@ class YosysStructuralTranslatorL4(
 
   def rtlir_tr_subcomp_decl( s, m, c_id, c_rtype, c_array_type, port_conns, ifc_conns ):
 
+    # The instance name is emitted verbatim
+    s.check_decl( c_id, "" )
+
     def _subcomp_port_gen( c_name, c_id, n_dim, port_decls ):
       p_wire_tplt = "logic {packed_type: <8} {id_};"
       p_conn_tplt = ".{port_id: <15}( {port_wire_id} )"
